@@ -52,6 +52,7 @@ type sysState struct {
 	spoof map[string]func(req *dns.Msg) []*dns.Msg
 	asked map[string]bool // client questions issued so far ("name/type")
 	mu    sync.RWMutex
+	lastTags string
 }
 
 var sys *sysState
@@ -271,7 +272,7 @@ func (s *sysState) audit() string {
 	}
 	// 2. the trap (loopback / local-interface glue) was never contacted
 	if n := s.trap.UDPQueries.Load() + s.trap.TCPQueries.Load() + s.trap.TCPConns.Load(); n > 0 {
-		return fail("l3/audit/loopback-or-local-glue-was-dialled", "n=%d", n)
+		return fail("l3/audit/address-from-rejected-glue-was-dialled", "n=%d", n)
 	}
 	// 3. every cached entry under a victim name holds published data only
 	names := map[string]bool{}
@@ -365,8 +366,11 @@ func (s *sysState) audit() string {
 			if oLoopback(a) || ownIfaces[a] {
 				return fail("l3/audit/glue-cache-holds-loopback-or-local", "host=%s addr=%s", h, a)
 			}
-			if h != "ns.sub.evil.test." {
+			if h == "other.evil.test." {
 				return fail("l3/audit/glue-cached-for-host-outside-ns-set", "host=%s addr=%s", h, a)
+			}
+			if h == "nsevil.test." {
+				return fail("l3/audit/glue-cached-for-host-outside-delegating-zone", "host=%s addr=%s", h, a)
 			}
 		}
 	}
@@ -560,14 +564,26 @@ func (s *sysState) attack(shape string, k int) (string, string) {
 	}
 	r = s.clientQuery(trigger, qtype)
 	or = s.judgeReply("attack", r)
-	if or == "ok" && qtype == dns.TypeA {
-		// a second, cache-served round must be just as clean
-		r2 := s.clientQuery(trigger, qtype)
-		if o := s.judgeReply("attack-cached", r2); o != "ok" {
-			or = o
+	// a second, cache-served round must be just as clean
+	r2 := s.clientQuery(trigger, qtype)
+	if o := s.judgeReply("attack-cached", r2); or == "ok" && o != "ok" {
+		or = o
+	}
+	tags := ""
+	for _, m := range []*dns.Msg{r, r2} {
+		if m == nil || (m.Rcode == dns.RcodeSuccess && len(m.Answer) > 0) {
+			continue
+		}
+		for _, sec := range [][]dns.RR{m.Ns, m.Extra} {
+			for _, rr := range sec {
+				if rr.Header().Rrtype != dns.TypeOPT && !inAttackerZone(rr.Header().Name) && !s.w.Published(rr) {
+					tags = "neg-relays-foreign-section-record"
+				}
+			}
 		}
 	}
-	return replySummary(r), or
+	s.lastTags = tags
+	return replySummary(r) + " 2nd: " + replySummary(r2), or
 }
 
 var allShapes = []string{
@@ -597,8 +613,13 @@ func execL3(f []string) vlib.Res {
 		sum, or := sys.victimCheck(f[2], t)
 		return vlib.Res{Impl: sum, Oracle: or, Tags: "nt,l3"}
 	case "attack":
+		sys.lastTags = ""
 		sum, or := sys.attack(f[2], vlib.Atoi(f[3]))
-		return vlib.Res{Impl: sum, Oracle: or, Tags: "nt,l3," + f[2]}
+		tags := "nt,l3," + f[2]
+		if sys.lastTags != "" {
+			tags += "," + sys.lastTags
+		}
+		return vlib.Res{Impl: sum, Oracle: or, Tags: tags}
 	case "audit":
 		return vlib.Res{Impl: "audited", Oracle: sys.audit(), Tags: "nt,l3"}
 	}
